@@ -224,6 +224,10 @@ STATIC_EXCEPTIONS = {
     ("cmd_ical_rpl", "now"): "memo of the last formatted second; stale value only skips a re-format of the same timestamp",
     ("cmd_ical_rpl", "stmp"): "formatted timestamp cached together with `now`",
     ("cmd_ical_rpl", "nrpl"): "reply counter deliberately spans calls until the flush form resets it",
+    # thorough tier (serialiser in evical.c): the DTSTAMP line is formatted once per process and replayed for every task header
+    ("send_ical_hdr", "now"): "process-wide memo of the DTSTAMP second (singleton, reset to 0 only when time() fails)",
+    ("send_ical_hdr", "stmp"): "memoised DTSTAMP text, appended to exactly once under the `now <= 0` guard",
+    ("send_ical_hdr", "ztmp"): "length of the memoised DTSTAMP text, advanced exactly once under the `now <= 0` guard",
 }
 
 
